@@ -187,6 +187,79 @@ static std::string run_conservation(const Cmd& c){
     return std::string(buf);
 }
 
+#if KERNEL == 1
+//   nume H B mode N seed cx cy cz width chargemode : polynomial exactness of the uniform kernel's interpolation operators (no
+//   truncation error involved): (A) after P2M + M2M the first moments sum_n M_n * node_n of every level equal sum_p q_p x_p;
+//   (B) with the level-2 locals set to a LINEAR field phi(x) = a0 + a.x at their nodes, L2L + L2P give every particle the
+//   potential phi(x_p) and the force (up to the library's global sign) q_p * a.   output: dip=<..> pot=<..> frc=<..>
+static std::string run_exactness(const Cmd& c){
+    const long H = c.L(1), B = c.L(2), mode = c.L(3), N = c.L(4);
+    lcg = (unsigned long)c.L(5) * 7919 + 17;
+    const Real cx = Real(c.D(6)), cy = Real(c.D(7)), cz = Real(c.D(8)), w = Real(c.D(9));
+    const long chargemode = c.L(10);
+    const std::array<Real, Dim> widths{{w, w, w}}; const std::array<Real, Dim> center{{cx, cy, cz}};
+    TbfSpacialConfiguration<Real, Dim> conf(H, widths, center);
+    std::vector<std::array<Real, Dim+1>> pos(N);
+    long double mom[3] = {0, 0, 0}, momabs = 0;
+    for(long i = 0 ; i < N ; ++i){
+        pos[i][0] = Real(cx + (rnd() - 0.5) * 0.998 * w); pos[i][1] = Real(cy + (rnd() - 0.5) * 0.998 * w); pos[i][2] = Real(cz + (rnd() - 0.5) * 0.998 * w);
+        pos[i][3] = pick_charge(chargemode);
+        for(int d = 0 ; d < 3 ; ++d) mom[d] += (long double)pos[i][3] * pos[i][d];
+        momabs += std::fabs((long double)pos[i][3]) * ((long double)std::fabs(double(cx)) + std::fabs(double(cy)) + std::fabs(double(cz)) + double(w));
+    }
+    const long double x0[3] = { (long double)cx - (long double)w / 2, (long double)cy - (long double)w / 2, (long double)cz - (long double)w / 2 };
+    auto node_pos = [&](long level, const auto& boxCoord, long n, long double out[3]){
+        const long double cw = (long double)w / (long double)(1L << level);
+        const long id[3] = { n % long(ORDER), (n / long(ORDER)) % long(ORDER), n / long(ORDER * ORDER) };
+        for(int d = 0 ; d < 3 ; ++d) out[d] = x0[d] + ((long double)boxCoord[d] + 0.5L) * cw + (-1.0L + 2.0L * (long double)id[d] / (long double)(ORDER - 1)) * cw / 2;
+    };
+    FInterpMatrixKernelR<Real> interp;
+    long double dip = 0;
+    {   // (A) upward
+        TreeClass tree(conf, TbfUtils::make_const(pos), B, mode != 0);
+        std::cout.setstate(std::ios_base::failbit);
+        { std::unique_ptr<TbfAlgorithm<Real, KernelClass, Space>> a(new TbfAlgorithm<Real, KernelClass, Space>(conf, KernelClass(conf, &interp)));
+          a->execute(tree, TbfAlgorithmUtils::TbfP2M | TbfAlgorithmUtils::TbfM2M); }
+        std::cout.clear();
+        std::vector<std::array<long double, 3>> sums(H, {{0, 0, 0}});
+        tree.applyToAllCells([&](long level, auto&& h, auto&& multipoleOpt, auto&&){
+            if(!multipoleOpt) return;
+            const auto& m = multipoleOpt->get();
+            for(long n = 0 ; n < VectorSize ; ++n){ long double p3[3]; node_pos(level, h.boxCoord, n, p3); for(int d = 0 ; d < 3 ; ++d) sums[level][d] += (long double)m.multipole_exp[n] * p3[d]; }
+        });
+        for(long l = 2 ; l < H ; ++l) for(int d = 0 ; d < 3 ; ++d){ const long double e = std::fabs(sums[l][d] - mom[d]) / momabs; if(e > dip) dip = e; }
+    }
+    long double epot = 0, efrc = 0;
+    {   // (B) downward
+        const long double a0 = 0.75L, av[3] = { 1.25L, -0.5L, 2.0L };
+        TreeClass tree(conf, TbfUtils::make_const(pos), B, mode != 0);
+        tree.applyToAllCells([&](long level, auto&& h, auto&&, auto&& localOpt){
+            if(level != 2 || !localOpt) return;
+            auto& L = localOpt->get();
+            for(long n = 0 ; n < VectorSize ; ++n){ long double p3[3]; node_pos(level, h.boxCoord, n, p3); L.local_exp[n] = Real(a0 + av[0] * p3[0] + av[1] * p3[1] + av[2] * p3[2]); }
+        });
+        std::cout.setstate(std::ios_base::failbit);
+        { std::unique_ptr<TbfAlgorithm<Real, KernelClass, Space>> a(new TbfAlgorithm<Real, KernelClass, Space>(conf, KernelClass(conf, &interp)));
+          a->execute(tree, TbfAlgorithmUtils::TbfL2L | TbfAlgorithmUtils::TbfL2P); }
+        std::cout.clear();
+        const long double scale = std::fabs(a0) + (std::fabs(av[0]) + std::fabs(av[1]) + std::fabs(av[2])) * ((long double)std::fabs(double(cx)) + std::fabs(double(cy)) + std::fabs(double(cz)) + double(w));
+        long double sgn = 0;
+        tree.applyToAllLeaves([&](auto&& h, const long* idx, auto&&, auto&& rhs){
+            for(long p = 0 ; p < h.nbParticles ; ++p){
+                const long i = idx[p];
+                const long double phi = a0 + av[0] * pos[i][0] + av[1] * pos[i][1] + av[2] * pos[i][2];
+                const long double e = std::fabs((long double)rhs[3][p] - phi) / scale; if(e > epot) epot = e;
+                if(sgn == 0) sgn = ((long double)rhs[0][p] * pos[i][3] * av[0] >= 0) ? 1 : -1;
+                for(int d = 0 ; d < 3 ; ++d){ const long double ef = std::fabs((long double)rhs[d][p] - sgn * pos[i][3] * av[d]) / (std::fabs((long double)pos[i][3]) * 2.0L); if(ef > efrc) efrc = ef; }
+            }
+        });
+    }
+    char buf[200];
+    std::snprintf(buf, sizeof buf, "dip=%.6Le pot=%.6Le frc=%.6Le", dip, epot, efrc);
+    return std::string(buf);
+}
+#endif
+
 //   nump H B mode k N seed cx cy cz width chargemode : the documented four-step periodic sequence with k extra levels, compared
 //   with the explicit long-double sum over every image of the repetition interval the library reports
 static std::string run_periodic(const Cmd& c){
@@ -261,6 +334,9 @@ int main(int argc, char** argv){
         if(c.tok[0] == "nump") return run_periodic(c);
         if(c.tok[0] == "numt") return run_tsm(c);
         if(c.tok[0] == "numc") return run_conservation(c);
+#if KERNEL == 1
+        if(c.tok[0] == "nume") return run_exactness(c);
+#endif
         if(c.tok[0] != "num") return "?unknown";
         const long H = c.L(1), B = c.L(2), mode = c.L(3), exec = c.L(4), N = c.L(5);
         lcg = (unsigned long)c.L(6) * 7919 + 17;
